@@ -1,11 +1,13 @@
-SPECIFICATION StartSpec
+SPECIFICATION MCStartSpec
 CONSTANTS
     Files <- MCFiles
-    Rows <- MCRows
+    Rows = {}
     MaxLen = 0
     MlLen = 0
     PairLen = 0
     WizLen = 0
+    PemLen = 2
+    PemOff = 0
     RowMode = "pairs"
     SkipRules = FALSE
 INVARIANTS StartTypeOK RefuseTable SeenAll EmitRow
